@@ -7,6 +7,7 @@ TCPRUN_STATE = [("next_seq", "Z"), ("send_buffer", "Z"), ("last_arrival", "Q")]
 TCPRUN_READS = [("self.flow.start_time", "start_time", "optQ"),                    # None | number: `if self.flow.start_time:`
                 # finish_time defaults to float("inf"): the outcome of the loop test is the observation
                 ("env.now < self.flow.finish_time", "before_finish", "bool"),
+                ("self.flow.finish_time > env.now", "before_finish", "bool"),       # (the flipped spelling)
                 ("self.flow.size", "flow_size", "optZ"),                           # None | int
                 ("self.flow.arrival_dist", "has_arrival_dist", "optobj"),
                 ("self.flow.size_dist", "has_size_dist", "optobj"),
@@ -26,7 +27,8 @@ TCPRUN_FX_CONS = [("FxArrivalDist", ""), ("FxSizeDist", ""), ("FxNewPacket", "(t
                   ("FxRecordSent", ""), ("FxOutPut", ""), ("FxNewTimer", "(rto : Q)")]
 TCPRUN_REQUESTS = [("env.timeout(_1)", "RqTimeout", ["Q"], None), ("self.cwnd_avaialbe.get()", "RqWindowGet", [], None)]
 TCPRUN_REQ_CONS = [("RqTimeout", "(d : Q)"), ("RqWindowGet", "")]
-TCPRUN_PASS = ["env.now < self.flow.finish_time", "self.next_seq >= self.send_buffer"]
+TCPRUN_PASS = ["env.now < self.flow.finish_time", "self.flow.finish_time > env.now",
+               "self.next_seq >= self.send_buffer", "self.send_buffer <= self.next_seq"]
 
 
 def extracted_tcprun(repo):
